@@ -93,11 +93,13 @@ Fixpoint indices_from (i : Z) (names : list (list Z)) (q : list Z) : list Z :=
 Definition indices_named (names : list (list Z)) (q : list Z) : list Z := indices_from 0 names q.
 
 (* lookup by name: all the symbols bearing it, in table order, or nothing *)
-Definition by_name_spec (strtab : list Z) (rows : list row) (q : list Z) : option (list symview) :=
-  match indices_named (names_of strtab rows) q with
+Definition by_name_views (vs : list symview) (q : list Z) : option (list symview) :=
+  match filter (fun v => beqb (fst v) q) vs with
   | [] => None
-  | ix => Some (map (fun i => nth (Z.to_nat i) (views strtab rows) ([], [])) ix)
+  | l => Some l
   end.
+Definition by_name_spec (strtab : list Z) (rows : list row) (q : list Z) : option (list symview) :=
+  by_name_views (views strtab rows) q.
 
 (* ---- SHT_SYMTAB_SHNDX: an array of 32-bit words, entry i belongs to symbol i *)
 Definition xrow := (Z * list Z)%type.
